@@ -205,7 +205,7 @@ def run(rep, tier):
     for f in (mk, fh, ad, mv):
         rep.analysed(f)
     MUT = r"priority_queue<.*>::(push|pop)$"
-    fmk = Fold(mk, mutators=MUT).run()
+    fmk = Fold(mk, mutators=MUT, inline=lambda q_, g_: bool(g_.j.get("internal")) or "huffmanTree<" in q_).run()
     sv = fmk.exit_env().get(("field", "sum_of_values"))
     stores = [e for e in fmk.events if e["kind"] == "store"]
 
